@@ -301,3 +301,27 @@ PROPS['C19'].update(explanation=PROPS['C19']['explanation'].replace('(counted as
     'lens and zipper exact;', 'lens and zipper exact; is_iterable and len0 from their real bodies (True exactly for list / tuple / range-like / dict; len(x) for sized containers, 0 for None, strings, scalars and zip objects);'))
 TEXT['C19'].update(level_note=TEXT['C19']['level_note'].replace('Assumed contracts: len0, is_iterable.',
     'Universe: a value tagged OTHER is a string or a scalar that is neither Iterable nor sized (sets, bytes, generators outside the datatype); getattr(x, "__len__", d)() axiom; loops.wrapped with keywords only is bounded.'))
+
+# ---- after the rows + headers constructor, integer-list selection, constructor from one record (C01) and unlist (C11)
+PROPS['C01'].update(explanation='Deductive (counted as proved): __setitem__, __len__, get, d[i]; __iter__ (one Dict per row, in order); __getitem__ for boolean masks (exactly the rows whose entry is '
+    'true, in order, all columns - count_true with induction lemmas), slices, column names, tuples and lists of names, and lists of integers (all columns, one row per index, row j is row item[j] of the '
+    'receiver with Python\'s negative indices, IndexError iff an index is outside -len..len-1, receiver unchanged - list(zip(*self.values())) by a transposition axiom, the rows + headers constructor by its '
+    'proved contract); the constructor with _data_columns_as_dict inlined from a dict of columns / keyword columns / ([], columns) / a list of records / nothing / a list of n row tuples of length m with m '
+    'distinct names given as a list or as dict keys (exactly the named columns, column p lists row[i][p]; zipper by its C19 contract) / one record whose cells are None, lists or scalars (broadcast on '
+    'construction: list cells of one length kept, scalars / None / one-element lists repeated, ValueError for list cells of different lengths); dict_concat (all four branches); column deletion; d1 + d2; '
+    'update. Outside the rows + headers contract: rows of unequal length, a name count other than the row length, repeated names. Bounded only: broadcast for tuple / range / dict-view cells and keyword '
+    'columns, concat of more than two operands that are tables already, relabel / do / derived columns, whole operation histories (the induction over the proved operations is an argument, not a solver step).')
+PROPS['C02'].update(explanation=PROPS['C02']['explanation'].replace('Bounded (not proved):',
+    'The row selection xor ends with, dictable[list of row indices], is a callee contract proved in C01 (__getitem__.ints.* and constructor.rows.*, regenerated in this property\'s check). Bounded (not proved):'))
+PROPS['C11'].update(explanation='Deductive (counted as proved): _listby (groups tile the sorted rows, keys strictly increasing, members carry the group key, rows of a group in original order, every row '
+    'listed) and the cell expressions of listby and groupby (one entry per row of the group, each the value of that row). unlist: its body with concat as a call (no row: the table itself; otherwise '
+    'cls.concat of the list of the rows, in order) and dictable.concat + as_list executed from their source on R records for symbolic R - all columns, NR[0]+...+NR[R-1] rows (NR[r] = length of the list '
+    'cells of row r, 1 when it has none), the block of row r lists its list cells item by item and repeats its other cells, ValueError iff a row has two list cells of different lengths other than 1; callees '
+    'by contract (C01 __iter__, constructor.record, dict_concat, constructor.columns; C19 lens, as_list - all regenerated here), sum(lists, []) by a concatenation axiom, the prefix-sum law by induction '
+    '(base + step obligations). Argued from these, not solver steps: one row per distinct key, sizes add up, unlist(listby(d)) is the stable sort. pivot (xyz): for every (x, y) group its z values '
+    '(aggregated when agg is given) sit in row = x group, column = y group, other cells None, nothing raises - three _listby calls by contract, interface lemmas, double loop with invariants and a ghost '
+    'writer matrix. Assumed: type(self)(xys, x+(y_,)) is the table of group keys (the rows + headers form proved in C01 for list / dict-key names; the link from opaque group keys to their components is '
+    'not modelled) and len(rs[[y_]].listby(y_)) the number of y groups. Bounded only: ungroup (its per-row table goes through dictable.__call__, Dict.do and dict.pop, which are not under contract; the '
+    'concat assembly is the one proved for unlist), type(self)(xs, by) / update inside listby and groupby, column labels / final assembly of the pivot, unpivot.')
+TEXT['C11'].update(level_text='Mixed: the grouping algorithm, the per-cell expressions, the pivot placement and unlist are proved for all tables; ungroup, unpivot and the assembling constructor calls '
+                              'inside listby / groupby are covered by the bounded stand-in only, so the claim is "other".')
